@@ -61,8 +61,24 @@ class W(object):
         self.nav = navigating
 
     def call(self, name, *args):
+        """the helper is reached under its own name or under its older names (navigating.Wrap2 / Delta, and the same
+        re-exported by the backwards compatibility module ioflo.base.aiding), the wrap given by position or by keyword"""
+        self.ncalls = getattr(self, "ncalls", 0) + 1
+        how = self.ncalls % 8
         try:
-            return True, getattr(self.nav, name)(*args)
+            fn = getattr(self.nav, name)
+            if how in (3, 5, 7) and name in ("wrap2", "delta"):
+                legacy = {"wrap2": "Wrap2", "delta": "Delta"}[name]
+                if how == 3:
+                    fn = getattr(self.nav, legacy)
+                else:
+                    from ioflo.base import aiding as _legacy
+                    fn = getattr(_legacy, legacy)
+                self.ctx.hit("calls_through_older_names")
+            if how in (2, 5, 6):
+                self.ctx.hit("wrap_given_by_keyword")
+                return True, fn(*args[:-1], wrap=args[-1])
+            return True, fn(*args)
         except Exception as e:
             self.ctx.fail("%s/raises/%s" % (name, exc_key(e)), "%s%r raises %r" % (name, args, e),
                           {"args": [repr(a) for a in args]})
@@ -308,6 +324,8 @@ def worker(ctx, job):
 
 
 def run(ctx):
+    ctx.floor("calls_through_older_names", 1000)
+    ctx.floor("wrap_given_by_keyword", 1000)
     wraps = [Fraction(0)] + [s * m for m in WRAP_MAGS for s in (1, -1)]
     N = ctx.pick(24, 90)
     wl = [(f.numerator, f.denominator) for f in wraps]
